@@ -129,20 +129,32 @@ static void run_hll_program(Rng& r, bool T) {
   const double hi = static_cast<double>(std::min<uint64_t>(64ULL << L, cap));
   const uint64_t base = r.next();
   Cfg c; c.cpc = false; c.lg_k = L; c.type = 0; c.nmax = 0; c.parts = 0; c.overlap = 0; c.base = base; c.step = 0;
-  struct Step { bool sketch; uint8_t lg_k; int type; uint64_t cnt; };
+  struct Step { bool sketch; uint8_t lg_k; int type; uint64_t cnt; bool rollup; };
   std::vector<Step> steps;
   const int nsteps = order == 2 ? 3 : 2;
   std::string d;
   for (int i = 0; i < nsteps; ++i) {
     Step st;
+    st.rollup = r.chance(0.35);        // the operand is itself the result of a union of two sketches (out of order when in HLL mode)
     st.sketch = (order == 0) ? (i == 0) : (order == 1 ? (i == 1) : (i != 1));
     const int rel = static_cast<int>(r.below(3));             // finer / equal / coarser than the union's lg_max_k
     st.lg_k = static_cast<uint8_t>(std::max<int>(4, std::min<int>(21, L + (rel == 0 ? static_cast<int>(r.range(1, 2)) : (rel == 1 ? 0 : -static_cast<int>(r.range(1, 2)))))));
     st.type = static_cast<int>(r.below(3));
     st.cnt = 1 + static_cast<uint64_t>(std::exp(r.unit() * std::log(hi / nsteps)));
     steps.push_back(st);
-    d += std::string(st.sketch ? " sketch(lg_k=" + std::to_string(st.lg_k) + "," + TNAME[st.type] + ",n=" : " raw(n=") + std::to_string(st.cnt) + ")";
   }
+  if (!big && r.chance(0.1)) {
+    // directed: a lg_k 19..21 source that is still in SET mode (below its own promotion point) into a union of lg_max_k 12..14 (big: up
+    // to 18) whose gadget is promoted to HLL mode during the feed; raw items / other steps stay around it
+    for (auto& st : steps) if (st.sketch) {
+      st.lg_k = static_cast<uint8_t>(r.range(19, 21)); st.rollup = false;
+      const uint64_t promo = 3 * (1ULL << L) / 32, setcap = 3 * (1ULL << st.lg_k) / 32;
+      st.cnt = std::min<uint64_t>({promo * 2 + r.below(promo * 8 + 1) + 16, setcap * 9 / 10, cap});
+      count("sk_hll_program_directed_set_source");
+      break;
+    }
+  }
+  for (auto& st : steps) d += std::string(st.sketch ? std::string(st.rollup ? " union-result(" : " sketch(") + "lg_k=" + std::to_string(st.lg_k) + "," + TNAME[st.type] + ",n=" : " raw(n=") + std::to_string(st.cnt) + ")";
   describe("hll union program lg_max_k=" + std::to_string(L) + " steps:" + d + " estimate_between=" + std::to_string(est_between) + " raw_kind=" + std::to_string(fixed_kind) + " keybase=" + std::to_string(base));
   hll_union u(L);
   std::unordered_set<std::string> seen;     // canonical byte strings of every item offered so far (sketch operands and raw)
@@ -154,10 +166,30 @@ static void run_hll_program(Rng& r, bool T) {
     if (st.sketch) {
       hll_sketch sk(st.lg_k, TYPES[st.type]);
       const uint64_t start = cursor - std::min<uint64_t>(cursor, r.coin() ? st.cnt / 5 : r.below(st.cnt + 1));     // re-offers 20% .. all of its size from the latest keys
-      for (uint64_t i = 0; i < st.cnt; ++i) { const uint64_t key = bij(base + start + i); sk.update(key); seen.insert(le8(key)); }
+      hll_sketch sk2(st.lg_k, TYPES[(st.type + 1) % 3]);
+      for (uint64_t i = 0; i < st.cnt; ++i) {
+        const uint64_t key = bij(base + start + i);
+        if (st.rollup && (i % 5) >= 2) sk2.update(key); else sk.update(key);
+        if (st.rollup && (i % 5) == 2) sk.update(key);        // 20% of the keys are in both halves
+        seen.insert(le8(key));
+      }
       cursor = std::max(cursor, start + st.cnt);
-      if (sk.get_current_mode() == HLL) min_lg = std::min(min_lg, st.lg_k);
-      if (r.coin()) u.update(sk); else u.update(std::move(sk));
+      if (st.rollup) {
+        hll_union fine(st.lg_k);
+        fine.update(sk); fine.update(sk2);
+        hll_sketch mid = fine.get_result(TYPES[r.below(3)]);
+        const hll_mode gm = u.get_current_mode();
+        if (mid.get_current_mode() == HLL) {
+          min_lg = std::min(min_lg, st.lg_k);
+          if (mid.is_out_of_order_flag() && st.lg_k > L) count(std::string("sk_hll_program_rollup_finer_ooo_operand_into_") + (u.is_empty() ? "empty" : (gm == LIST ? "list" : (gm == SET ? "set" : "hll"))) + "_gadget");
+        }
+        if (r.coin()) u.update(mid); else u.update(std::move(mid));
+        count("sk_hll_program_rollup_steps");
+      } else {
+        if (sk.get_current_mode() == HLL) min_lg = std::min(min_lg, st.lg_k);
+        if (sk.get_current_mode() == SET && st.lg_k >= 19) count("sk_hll_program_big_set_mode_operands");
+        if (r.coin()) u.update(sk); else u.update(std::move(sk));
+      }
       count("sk_hll_program_sketch_steps");
     } else {
       for (uint64_t i = 0; i < st.cnt; ++i) {
